@@ -489,7 +489,7 @@ def epc_parse(data):
     return f, problems
 
 
-def epc_one(kw, acc, expect_refusal=False, symbol=True):
+def epc_one(kw, acc, expect_refusal=False, symbol=True, may_refuse=False):
     case = ('epc1', {k: (str(v) if isinstance(v, decimal.Decimal) else v) for k, v in kw.items()}, expect_refusal)
     try:
         data = helpers._make_epc_qr_data(**kw)
@@ -506,6 +506,9 @@ def epc_one(kw, acc, expect_refusal=False, symbol=True):
         return
     if exc is not None:
         acc.eval(case, nontrivial=False, outcome='exc:' + C.exc_name(exc))
+        if may_refuse and isinstance(exc, ValueError):
+            acc.count('epc_unencodable_refused')
+            return
         if not (isinstance(exc, ValueError) and 'too big' in str(exc)):
             acc.violation('epc-refused-valid', '_make_epc_qr_data(**%r) raised %s: %s' % (kw, C.exc_name(exc), str(exc)[:80]), case)
         return
@@ -522,7 +525,7 @@ def epc_one(kw, acc, expect_refusal=False, symbol=True):
         except decimal.InvalidOperation:
             problems.append('amount line %r' % f['amount'])
         enc = kw.get('encoding')
-        if enc is not None:
+        if enc is not None and not may_refuse:
             want_cs = enc if isinstance(enc, int) else ENCODINGS.index(enc.lower()) + 1
             if int(f['charset']) != want_cs:
                 problems.append('character set %s, requested %r' % (f['charset'], enc))
@@ -573,6 +576,17 @@ def epc_case(acc):
         kw = dict(BASE)
         kw['name'] = SAMPLE_TEXT[i]
         epc_one(kw, acc)
+    # a requested character set that cannot represent a field: refused, or a payload whose character-set line tells the truth
+    for i in range(1, 9):
+        for j in range(1, 9):
+            if i == j:
+                continue
+            for field in ('text', 'name'):
+                for e in (i, ENCODINGS[i - 1]):
+                    kw = dict(BASE)
+                    kw[field] = SAMPLE_TEXT[j]
+                    kw['encoding'] = e
+                    epc_one(kw, acc, symbol=False, may_refuse=True)
     for extra in (dict(bic='BFSWDE33BER'), dict(bic='BFSWDE33'), dict(purpose='CHAR'), dict(text=None, reference='RF18539007547034'),
                   dict(bic=' BFSWDE33 ', name='  padded  ', text='trailing   '), dict(text='x' * 140), dict(name='n' * 70), dict(iban='I' * 34),
                   dict(iban='ABCDE'), dict(text=None, reference='R' * 35), dict(text='€' * 60),
